@@ -447,18 +447,19 @@ def gen_c20_sm9(tier, rng):
                 continue
             data = bytes(ln) if content == '00' else b'\xff' * ln if content == 'ff' else rb(rng, ln)
             yield ('sm9-decrypt-len', 's9_dec %s %s %s %s' % (H(ke), idb, idb, hx(data)), None)
-            if ln >= 40:
-                yield ('sm9-hash-to-range-len', 'n_from_hash %s' % hx(data), None)
+            # every length: fewer than 40 bytes used to panic (fixed 3f2395a); the oracle of C16 speaks for >= 40 bytes only,
+            # for shorter input C20 demands "returns, no panic" (class prefix `terminates`)
+            yield (('sm9-hash-to-range-len' if ln >= 40 else 'terminates-sm9-hash-to-range-short'), 'n_from_hash %s' % (hx(data) or '-'), None)
             if ln <= 80:
                 yield ('sm9-kdf-len', 's9_kdf %s %d' % (hx(data), ln), None)
     # degenerate lengths of the encryption entry points (an empty message must return, not spin in the K1 = 0 retry)
     for m_ in ('-', '00', 'ff' * 255):
-        yield ('sm9-encrypt-degenerate-len', 's9_enc %s %s %s %s' % (H(ke), idb, m_, good_r(rng)), None)
-    yield ('sm9-encrypt-degenerate-len', 's9_tamper %s %s - %s none 0' % (H(ke), idb, good_r(rng)), None)
+        yield ('terminates-sm9-encrypt-degenerate-len', 's9_enc %s %s %s %s' % (H(ke), idb, m_, good_r(rng)), None)
+    yield ('terminates-sm9-encrypt-degenerate-len', 's9_tamper %s %s - %s none 0' % (H(ke), idb, good_r(rng)), None)
     for hv in (0, 1, N - 2, N - 1, N, N + 1, (1 << 256) - 1):
         yield ('sm9-verify-h-boundary', 's9_verify %s %s %s %s %s' % (H(ke), hx(b'Alice'), hx(b'msg'), H(hv), S.g1_bytes(S.P1)), None)
     for s_ in ('04' + H(0) + H(0), '04' + 'ff' * 64, '00' * 65, S.g1_bytes((S.P1[0], S.P1[1] ^ 1))):
         yield ('sm9-verify-S-garbage', 's9_verify %s %s %s %s %s' % (H(ke), hx(b'Alice'), hx(b'msg'), H(5), s_), None)
     yield ('sm9-verify-S-raw-z=0', 's9_verify_raw %s %s %s %s %s' % (H(ke), hx(b'Alice'), hx(b'msg'), H(5), S.g1_jac(None, 1)), None)
     for v in (1, N - 2):
-        yield ('sm9-boundary-master-keys', 's9_sv %s %s %s %s' % (H(v), hx(b'Alice'), hx(b'm'), good_r(rng)), None)
+        yield ('terminates-sm9-boundary-master-keys', 's9_sv %s %s %s %s' % (H(v), hx(b'Alice'), hx(b'm'), good_r(rng)), None)
